@@ -790,3 +790,60 @@ class _:
         return special(result) or result[3] <= prec
 
     ghost = {('sign, man, exp, bc = x', 0, 'after'): ['split eps_sign 0 1']}
+
+
+# ------------------------------------------------------------------ gmpy-backend twins written in Python (C37)
+# The Python-source gmpy_* variants are proved against the *same* contract as their python_*
+# twins (with bitcount's contract standing for gmpy's bit_length / numdigits(2)); since the
+# contract determines the result tuple (spec lemma cround_deterministic), both back ends return
+# bit-identical results for these routines.
+@contract(M + 'gmpy_mpf_mul')
+class _:
+    shapes = dict(s='mpf', t='mpf', prec='int')
+    result = 'mpf'
+    props = dict(wf=['C37'], bits=['C37'], value=['C37'], exact=['C37'])
+    all_props = ['C37']
+
+    def requires(s, t, prec, rnd):
+        return WF(s) and WF(t) and prec >= 0
+
+    def ensures_wf(s, t, prec, rnd, result):
+        return WF(result)
+
+    def ensures_bits(s, t, prec, rnd, result):
+        return prec == 0 or special(result) or result[3] <= prec
+
+    def ensures_value(s, t, prec, rnd, result):
+        return ProdSpec(result, s, t, prec, rnd)
+
+    def ensures_exact(s, t, prec, rnd, result):
+        return prec != 0 or is_nonfinite(s) or is_nonfinite(t) or result == exact_prod(s, t)
+
+    ghost = {
+        ('man = sman * tman', 0, 'after'): ['lemma_odd_mul(sman, tman)', 'lemma_mul_pos(sman, tman)'],
+    }
+
+
+@contract(M + 'gmpy_mpf_mul_int')
+class _:
+    shapes = dict(s='mpf', n='int', prec='int')
+    result = 'mpf'
+    props = dict(wf=['C37'], bits=['C37'], value=['C37'])
+    all_props = ['C37']
+
+    def requires(s, n, prec, rnd):
+        return WF(s) and prec >= 1
+
+    def ensures_wf(s, n, prec, rnd, result):
+        return WF(result)
+
+    def ensures_bits(s, n, prec, rnd, result):
+        return special(result) or result[3] <= prec
+
+    def ensures_value(s, n, prec, rnd, result):
+        return MulIntSpec(result, s, n, prec, rnd)
+
+    ghost = {
+        ('man *= n', 0, 'before'): ['g_m = man'],
+        ('man *= n', 0, 'after'): ['lemma_mul_pos(g_m, n)'],
+    }
